@@ -20,7 +20,7 @@ RULE = ("exhaustive tables: clique_equation(tau) for tau=2..7 (quick) / 2..9 wit
         "with a cycle; distinct = canonical JSON")
 ASSUMPTIONS = ["for tau >= 7 the clique oracle uses the vertex-subset form built on the reference connected-graph counts, "
                "validated against the edge-subset brute force for tau <= 6 in the same run"]
-BUDGET = {"quick": (16, 120), "thorough": (16, 1500)}
+BUDGET = {"quick": (16, 120), "thorough": (16, 5000)}
 EXHAUSTIVE = True
 EXHAUSTIVE_NOTE = "the tables of RULE (clique/cycle equations, Q, QQ) are enumerated completely over the stated ranges"
 ENUM_CHUNK = 6
